@@ -329,5 +329,7 @@ pub fn run(tier: Tier, seed: u64) -> i32 {
     report.space("both feature configurations (srp-default-math: num-bigint; srp-fast-math: rug on the system GMP 6.2.1 through the vendored gmp-mpfr-sys version gate)");
     report.assume("GMP 6.2.1 instead of the bundled 6.3.0 (the bundled one cannot be built here: no m4)");
     report.assume("agreement with the reference model is established for the default build by C01-C04/C14; equality of transcripts carries it over");
+    report.set("exhaustive", json!(false));
+    report.cap_hit("differential over a finite case list, not over all inputs");
     report.finish()
 }
